@@ -35,8 +35,11 @@ type M struct {
 
 // New builds a complete machine. withAudio attaches small buffered sample
 // channels that are drained synchronously after every cycle.
-func New(rom []byte, w io.Writer, withAudio bool) *M {
-	m := newHW(rom, w, withAudio)
+func New(rom []byte, w io.Writer, withAudio bool) *M { return NewCfg(rom, w, withAudio, false) }
+
+// NewCfg: as New, the picture unit built with the given LCD debug option (gameboy.Config.DebugLCD).
+func NewCfg(rom []byte, w io.Writer, withAudio, debugLCD bool) *M {
+	m := newHWCfg(rom, w, withAudio, debugLCD)
 	m.CPU = cpu.New(m.I, m.O, false, m.Mp)
 	m.CPU.Initialize()
 	return m
@@ -47,7 +50,9 @@ func NewHW(rom []byte, w io.Writer, withAudio bool) *M {
 	return newHW(rom, w, withAudio)
 }
 
-func newHW(rom []byte, w io.Writer, withAudio bool) *M {
+func newHW(rom []byte, w io.Writer, withAudio bool) *M { return newHWCfg(rom, w, withAudio, false) }
+
+func newHWCfg(rom []byte, w io.Writer, withAudio, debugLCD bool) *M {
 	m := &M{}
 	m.I = interrupts.New()
 	m.O = oam.New()
@@ -56,7 +61,7 @@ func newHW(rom []byte, w io.Writer, withAudio bool) *M {
 		m.R = make(chan float32, 8)
 	}
 	m.A = audio.New(m.L, m.R)
-	m.P = ppu.New(m.I, m.O, false)
+	m.P = ppu.New(m.I, m.O, debugLCD)
 	m.S = serial.New(w)
 	m.T = timer.New()
 	m.C = controller.New()
